@@ -166,7 +166,16 @@ fn skel_markup(node: &SyntaxNode, sort_imports: bool, out: &mut String) {
             }
             K::LineComment | K::BlockComment | K::Shebang => {}
             K::Text => {
-                let t = c.text().as_str();
+                let full = c.text().as_str();
+                if full.starts_with(' ') {
+                    pending_space = true;
+                }
+                let t = full.trim_matches(' ');
+                if t.is_empty() {
+                    pending_space = true;
+                    continue;
+                }
+                let trailing = full.ends_with(' ');
                 match cur.as_mut() {
                     Some(s) => {
                         if pending_space {
@@ -181,7 +190,7 @@ fn skel_markup(node: &SyntaxNode, sort_imports: bool, out: &mut String) {
                         cur = Some(t.to_string());
                     }
                 }
-                pending_space = false;
+                pending_space = trailing;
             }
             _ => {
                 let had_text = cur.is_some();
@@ -357,7 +366,21 @@ fn obs_markup_node(node: &SyntaxNode, out: &mut Vec<Vec<String>>) {
         for c in node.children() {
             match c.kind() {
                 K::Space | K::Parbreak => items.push(ws_class(c)),
-                K::Text | K::Escape | K::Shorthand | K::SmartQuote | K::Link | K::Label | K::Linebreak => {
+                K::Text => {
+                    let full = c.text().as_str();
+                    if full.starts_with(' ') {
+                        items.push("<S>".to_string());
+                    }
+                    let t = full.trim_matches(' ');
+                    if !t.is_empty() {
+                        let words: Vec<&str> = t.split(' ').filter(|w| !w.is_empty()).collect();
+                        items.push(format!("Text:{}", words.join(" ")));
+                        if full.ends_with(' ') {
+                            items.push("<S>".to_string());
+                        }
+                    }
+                }
+                K::Escape | K::Shorthand | K::SmartQuote | K::Link | K::Label | K::Linebreak => {
                     items.push(format!("{:?}:{}", c.kind(), c.text()))
                 }
                 K::Ref => {
